@@ -1002,7 +1002,12 @@ class VBSClusteringManager:
         # --- Cancelled / failed join leave-notification phase ---
         elif self._join_substate in (_JoinSubstate.CANCELLED, _JoinSubstate.FAILED):
             assert self._join_leave_started is not None
-            if now - self._join_leave_started >= vam_constants.TIME_CLUSTER_LEAVE_NOTIFICATION:
+            if self._leave_substate is _LeaveSubstate.NOTIFY:
+                # The single clusterLeaveInfo of the VAM still carries the leave
+                # notification of the cluster left before; the notice of the
+                # cancelled join is sent after it, for its own full duration.
+                self._join_leave_started = now
+            elif now - self._join_leave_started >= vam_constants.TIME_CLUSTER_LEAVE_NOTIFICATION:
                 self._join_substate = _JoinSubstate.NONE
                 self._join_target_cluster_id = None
                 self._join_leave_reason = None
@@ -1098,20 +1103,21 @@ class VBSClusteringManager:
             }
 
         if self._join_substate in (_JoinSubstate.CANCELLED, _JoinSubstate.FAILED):
-            container["clusterLeaveInfo"] = {
-                "clusterId": self._join_target_cluster_id or 0,
-                "clusterLeaveReason": (
-                    self._join_leave_reason or ClusterLeaveReason.NOT_PROVIDED
-                ).value,
-            }
-        elif self._leave_substate is _LeaveSubstate.NOTIFY:
+            leave_info = (self._join_target_cluster_id, self._join_leave_reason)
+        else:
+            leave_info = None
+        if self._leave_substate is _LeaveSubstate.NOTIFY:
             # Leave notification from prior cluster membership.  It runs for its
             # full timeClusterLeaveNotification even when a new join has been
-            # announced meanwhile (the container carries both).
+            # announced (the container carries both) or cancelled meanwhile: a
+            # VAM has one clusterLeaveInfo, the notice of the cancelled join
+            # follows afterwards (see _update_standalone).
+            leave_info = (self._leave_cluster_id, self._leave_reason)
+        if leave_info is not None:
             container["clusterLeaveInfo"] = {
-                "clusterId": self._leave_cluster_id or 0,
+                "clusterId": leave_info[0] or 0,
                 "clusterLeaveReason": (
-                    self._leave_reason or ClusterLeaveReason.NOT_PROVIDED
+                    leave_info[1] or ClusterLeaveReason.NOT_PROVIDED
                 ).value,
             }
 
